@@ -137,6 +137,10 @@ class Core:
         if isinstance(sv, VFunc):
             # a closure escaping as a value: opaque callable, identified by its source position
             key = f"fn:{sv.module}:{sv.qual}:{getattr(sv.node, 'lineno', 0)}:{getattr(sv.node, 'col_offset', 0)}"
+            if not sv.env and sv.frame is None and sv.self_sv is None:
+                # a module-level function: one stable value
+                c = th.const(key)
+                return c
             envkey = getattr(sv, '_envkey', None)
             if envkey is None:
                 # the same lambda text closed over different values is a different function value
